@@ -38,7 +38,7 @@ theorem detachRaw_inv {f : Forest} (hi : f.Inv) {a : Nat} (hcut : f.CutOK a) : (
     have h1 := cut_inv hi lc hcut
     refine Inv.of_perm (f' := ({ f with roots := plug path (l ++ r) } : Forest).addRoot k) hi rfl rfl rfl rfl ?_ ?_
     · unfold addRoot allHandles
-      simp only [fi_handlesList_append, handlesList_cons, handlesList_nil, List.append_nil]
+      simp only [fi_handlesList_append, fi_handlesList_cons, fi_handlesList_nil, List.append_nil]
       have := cut_perm hi.nodup (cut_of_loc lc hi.nodup)
       exact this
     · show validList (!f.everOff) (plug path (l ++ r) ++ [k]) = true
